@@ -58,6 +58,8 @@ def decorateSubscriber (ctxDec : α → α) (decs : List (α → α)) (sub : α)
 /-! ### recording instances (what the harness registers) -/
 
 inductive Ev
+  | app (g : Nat)                    -- the application's own transform decorator `g` (the handler was given an already
+                                     -- decorated subscriber object, possibly shared with other handlers) sees the message
   | sub (i : Nat) (ctxSeen : Bool)   -- subscriber decorator `i` sees the incoming message; handler context already present?
   | enter (i : Nat)                  -- middleware `i` entered
   | handler                          -- the handler function itself
@@ -100,19 +102,39 @@ def chainTrace (regs : List Reg) (name : String) : List Ev :=
 /-- trace of one outgoing message through the decorated publisher -/
 def pubTrace (pd : List Nat) : List Ev := decoratePublisher (pd.map recPub) [Ev.published]
 
+/-- the subscriber object a handler was registered with: a raw one, or one the application has already wrapped in its
+    own transform decorator `g` (the same wrapped object may be given to several handlers: every handler decorates it
+    into an object of its OWN, `decorateHandlerSubscriber` never modifies what it was given) -/
+def appSub : Option Nat → SubT
+  | none => ([], false)
+  | some g => ([Ev.app g], false)
+
 /-- trace of one incoming message through the decorated subscriber -/
-def subTrace (sd : List Nat) : List Ev := (decorateSubscriber ctxDec (sd.map recSub) ([], false)).1
+def subTraceFrom (app : Option Nat) (sd : List Nat) : List Ev :=
+  (decorateSubscriber ctxDec (sd.map recSub) (appSub app)).1
+
+def subTrace (sd : List Nat) : List Ev := subTraceFrom none sd
 
 /-- everything one message does in a handler that returns one message (if it has a publisher) or none -/
-def msgTrace (regs : List Reg) (pd sd : List Nat) (name : String) (hasPub : Bool) : List Ev :=
-  subTrace sd ++ chainTrace regs name ++ (if hasPub then pubTrace pd else [])
+def msgTrace (regs : List Reg) (pd sd : List Nat) (name : String) (hasPub : Bool) (app : Option Nat := none) : List Ev :=
+  subTraceFrom app sd ++ chainTrace regs name ++ (if hasPub then pubTrace pd else [])
 
 /-! ### registration programs -/
+
+/-- what a `RouterPlugin` of the harness does when `Run` executes it -/
+inductive POp
+  | routerMw (ids : List Nat)                  -- r.AddMiddleware(ids...)
+  | pubDec (ids : List Nat)                    -- r.AddPublisherDecorators(ids...)
+  | subDec (ids : List Nat)                    -- r.AddSubscriberDecorators(ids...)
+  deriving DecidableEq, Repr, Inhabited
 
 inductive Op
   | routerMw (ids : List Nat)                  -- router.AddMiddleware(ids...)
   | handlerMw (h : String) (ids : List Nat)    -- handler.AddMiddleware(ids...)
-  | addHandler (h : String) (hasPub : Bool)    -- router.AddHandler / AddNoPublisherHandler
+  | addHandler (h : String) (hasPub : Bool) (app : Option Nat)
+                                               -- router.AddHandler / AddNoPublisherHandler; `app = some g`: with the
+                                               -- application-decorated (shared) subscriber object `g`
+  | plugin (ps : List POp)                     -- router.AddPlugin(func(r) { ps })
   | pubDec (ids : List Nat)                    -- router.AddPublisherDecorators(ids...)
   | subDec (ids : List Nat)                    -- router.AddSubscriberDecorators(ids...)
   | run                                        -- first: Run (which calls RunHandlers); later: RunHandlers
@@ -121,21 +143,53 @@ inductive Op
 structure HSt where
   name   : String
   hasPub : Bool
+  app    : Option Nat
   trace  : Option (List Ev)    -- `some t`: started; `t` = what every message does from then on (snapshot)
   deriving DecidableEq, Repr, Inhabited
+
+/-- the three registration lists of the router -/
+structure R3 where
+  regs : List Reg := []
+  pd   : List Nat := []
+  sd   : List Nat := []
+  deriving DecidableEq, Repr, Inhabited
+
+def R3.app (a b : R3) : R3 := ⟨a.regs ++ b.regs, a.pd ++ b.pd, a.sd ++ b.sd⟩
+
+def POp.r3 : POp → R3
+  | .routerMw ids => ⟨ids.map fun i => ⟨i, "", true⟩, [], []⟩
+  | .pubDec ids => ⟨[], ids, []⟩
+  | .subDec ids => ⟨[], [], ids⟩
+
+/-- what executing the plugins, in the order added, registers -/
+def pluginR3 : List (List POp) → R3
+  | [] => {}
+  | ps :: rest => (ps.foldl (fun (a : R3) (o : POp) => a.app o.r3) {}).app (pluginR3 rest)
 
 structure St where
   regs : List Reg := []
   pd   : List Nat := []
   sd   : List Nat := []
+  plugins : List (List POp) := []                -- Router.plugins
+  ran  : Bool := false                           -- Router.isRunning: `Run` has been called
   hs   : List HSt := []
   obs  : List (List (String × List Ev)) := []    -- one block per `run`: trace of one message per started handler
   deriving Repr, Inhabited
 
+def St.r3 (s : St) : R3 := ⟨s.regs, s.pd, s.sd⟩
+
+/-- the beginning of `Run`: `for _, plugin := range r.plugins { plugin(r) }` BEFORE `RunHandlers` – only `Run` does
+    this (once); `RunHandlers` called later on the running router does not -/
+def loadPlugins (s : St) : St :=
+  if s.ran then s
+  else
+    let r := s.r3.app (pluginR3 s.plugins)
+    { s with regs := r.regs, pd := r.pd, sd := r.sd, ran := true }
+
 def startH (s : St) (h : HSt) : HSt :=
   match h.trace with
   | some _ => h                                                      -- `if h.started { continue }`
-  | none => { h with trace := some (msgTrace s.regs s.pd s.sd h.name h.hasPub) }
+  | none => { h with trace := some (msgTrace s.regs s.pd s.sd h.name h.hasPub h.app) }
 
 def block (hs : List HSt) : List (String × List Ev) :=
   hs.filterMap fun h => h.trace.map fun t => (h.name, t)
@@ -145,13 +199,15 @@ def step (s : St) : Op → Option St
   | .routerMw ids => some { s with regs := s.regs ++ ids.map fun i => ⟨i, "", true⟩ }
   | .handlerMw h ids =>
     if s.hs.any (·.name == h) then some { s with regs := s.regs ++ ids.map fun i => ⟨i, h, false⟩ } else none
-  | .addHandler h p =>
-    if s.hs.any (·.name == h) then none else some { s with hs := s.hs ++ [⟨h, p, none⟩] }
+  | .addHandler h p a =>
+    if s.hs.any (·.name == h) then none else some { s with hs := s.hs ++ [⟨h, p, a, none⟩] }
+  | .plugin ps => some { s with plugins := s.plugins ++ [ps] }
   | .pubDec ids => some { s with pd := s.pd ++ ids }
   | .subDec ids => some { s with sd := s.sd ++ ids }
   | .run =>
-    let hs' := s.hs.map (startH s)
-    some { s with hs := hs', obs := s.obs ++ [block hs'] }
+    let s1 := loadPlugins s
+    let hs' := s1.hs.map (startH s1)
+    some { s1 with hs := hs', obs := s1.obs ++ [block hs'] }
 
 def exec (s : St) : List Op → Option St
   | [] => some s
